@@ -395,6 +395,91 @@ impl RuntimeData {
     pub fn capture_upvalue() {}
 }
 
+/// Read access to the interpreter state for the out-of-tree verification harnesses
+/// (`verif-hooks` feature only).
+#[cfg(feature = "verif-hooks")]
+impl RuntimeData {
+    pub fn verif_stack_len(&self) -> usize {
+        self.value_stack.len()
+    }
+
+    pub fn verif_stack_get(&mut self, i: usize) -> Value {
+        self.value_stack.get(i)
+    }
+
+    pub fn verif_stack(&mut self) -> &mut ValueStack {
+        &mut self.value_stack
+    }
+
+    pub fn verif_call_depth(&self) -> usize {
+        self.call_stack.len()
+    }
+
+    /// (src_instr_ptr, dst_instr_ptr, stack_offset, closure is null) of frame `i` from the bottom
+    pub fn verif_frame(&self, i: usize) -> Option<(u32, u32, u32, bool)> {
+        self.call_stack
+            .iter()
+            .nth(i)
+            .map(|f| (f.src_instr_ptr, f.dst_instr_ptr, f.stack_offset, f.closure.is_null()))
+    }
+
+    pub fn verif_push_frame(
+        &mut self,
+        src_instr_ptr: u32,
+        dst_instr_ptr: u32,
+        stack_offset: u32,
+        closure: Option<NonNull<CaoLangObject>>,
+    ) -> bool {
+        let closure = match closure {
+            Some(mut o) => unsafe {
+                match &mut o.as_mut().body {
+                    CaoLangObjectBody::Closure(c) => c as *mut _,
+                    _ => std::ptr::null_mut(),
+                }
+            },
+            None => std::ptr::null_mut(),
+        };
+        self.call_stack
+            .push(CallFrame {
+                src_instr_ptr,
+                dst_instr_ptr,
+                stack_offset,
+                closure,
+            })
+            .is_ok()
+    }
+
+    pub fn verif_globals(&mut self) -> &mut Vec<Value> {
+        &mut self.global_vars
+    }
+
+    pub fn verif_object_count(&self) -> usize {
+        self.object_list.len()
+    }
+
+    pub fn verif_object(&self, i: usize) -> Option<NonNull<CaoLangObject>> {
+        self.object_list.get(i).copied()
+    }
+
+    pub fn verif_open_upvalues(&self) -> *mut CaoLangObject {
+        self.open_upvalues
+    }
+
+    /// (allocated, next_gc, limit)
+    pub fn verif_memory(&self) -> (usize, usize, usize) {
+        use std::sync::atomic::Ordering::Relaxed;
+        (
+            self.memory.allocated.load(Relaxed),
+            self.memory.next_gc.load(Relaxed),
+            self.memory.limit.load(Relaxed),
+        )
+    }
+
+    pub fn verif_allocator(&self) -> AllocProxy {
+        self.memory.clone()
+    }
+}
+
 #[cfg(test)]
 mod tests {
     use std::ops::DerefMut;
